@@ -19,7 +19,12 @@
 //	(d) concurrent public-API use: goroutines mixing Encode / Decode / DecodeConfig /
 //	    GetFeatures / animation / mux on different inputs; each result is compared
 //	    with the result of the same call made alone;
-//	(e) thorough tier: (c) and (d) again from a -race build of this harness.
+//	(f) pooled objects under concurrency: goroutines hammering Encode / Decode of the
+//	    same dimensions; per-call comparison with the solo result and re-verification
+//	    of the checksums of earlier results while the others run;
+//	(g) slow writers: Encode through writers that copy the slice they are given, yield while
+//	    other goroutines run same-dimension encodes, and re-compare it before returning;
+//	(e) thorough tier: (c), (d), (f) and (g) again from a -race build of this harness.
 package main
 
 import (
@@ -730,6 +735,291 @@ func runConcurrent(calls []apiCall, solo []string, par, rounds int, rng *Rand) (
 }
 
 // ---------------------------------------------------------------------------
+// (f) pooled objects shared under concurrency: many goroutines hammer Encode / Decode
+// of the SAME dimensions, so that pooled encoders, decoders, parallel states and
+// buffers migrate between goroutines.  Every result is compared with the solo result,
+// and every object returned earlier (encoded bytes, decoded images) is kept alive and
+// its checksum re-verified while the other goroutines keep running: a returned slice
+// that aliases a pooled buffer would be overwritten by a later call.
+
+type poolCall struct {
+	name string
+	kind string
+	fn   func() (string, func() string) // result digest, and a re-digest of the retained object
+}
+
+func buildPoolCalls(rng *Rand) []poolCall {
+	var calls []poolCall
+	const W, H = 160, 128
+	type encSpec struct {
+		sp imgSpec
+		o  webp.EncoderOptions
+	}
+	specs := []encSpec{
+		{imgSpec{W, H, 0, false, rng.U64()}, webp.EncoderOptions{Quality: 75, Method: 4}},
+		{imgSpec{W, H, 1, false, rng.U64()}, webp.EncoderOptions{Quality: 40, Method: 3, Segments: 2}},
+		{imgSpec{W, H, 2, true, rng.U64()}, webp.EncoderOptions{Quality: 90, Method: 5}},
+		{imgSpec{W, H, 1, false, rng.U64()}, webp.EncoderOptions{Quality: 60, Method: 2, Partitions: 2}},
+		{imgSpec{W, H, 1, false, rng.U64()}, webp.EncoderOptions{Lossless: true, Quality: 60, Method: 3}},
+		{imgSpec{W, H, 2, true, rng.U64()}, webp.EncoderOptions{Lossless: true, Quality: 90, Method: 4}},
+	}
+	for _, es := range specs {
+		img := genImage(es.sp)
+		o := es.o
+		kind := "EncodeLossy"
+		if o.Lossless {
+			kind = "EncodeLossless"
+		}
+		calls = append(calls, poolCall{fmt.Sprintf("%s/%s/q%v/m%d", kind, es.sp, o.Quality, o.Method), kind, func() (string, func() string) {
+			var buf bytes.Buffer
+			if err := webp.Encode(&buf, img, &o); err != nil {
+				return "err", nil
+			}
+			b := buf.Bytes()
+			return fmt.Sprintf("%d:%s", len(b), digest(b)), func() string { return fmt.Sprintf("%d:%s", len(b), digest(b)) }
+		}})
+		var fb bytes.Buffer
+		if err := webp.Encode(&fb, img, &o); err != nil {
+			continue
+		}
+		data := fb.Bytes()
+		dk := "DecodeLossy"
+		if o.Lossless {
+			dk = "DecodeLossless"
+		}
+		calls = append(calls, poolCall{fmt.Sprintf("%s/%s", dk, es.sp), dk, func() (string, func() string) {
+			im, err := webp.Decode(bytes.NewReader(data))
+			if err != nil {
+				return "err", nil
+			}
+			return digestImage(im), func() string { return digestImage(im) }
+		}})
+	}
+	return calls
+}
+
+type poolDiff struct {
+	key    string
+	desc   string
+	replay map[string]any
+}
+
+// runPoolProbe returns the differences found and the number of calls / re-verifications made.
+func runPoolProbe(calls []poolCall, goroutines, rounds int, rng *Rand) (diffs []poolDiff, ncalls, nreverify int) {
+	solo := make([]string, len(calls))
+	for k := range calls {
+		k := k
+		solo[k] = safe(func() string { d, _ := calls[k].fn(); return d })
+	}
+	type kept struct {
+		call int
+		dig  string
+		re   func() string
+	}
+	var mu sync.Mutex
+	var wg sync.WaitGroup
+	done := make(chan struct{})
+	seeds := make([]uint64, goroutines)
+	for g := range seeds {
+		seeds[g] = rng.U64()
+	}
+	for g := 0; g < goroutines; g++ {
+		wg.Add(1)
+		go func(g int) {
+			defer wg.Done()
+			r := NewRand(seeds[g])
+			var keep []kept
+			verify := func(when string) {
+				for _, kp := range keep {
+					now := kp.re()
+					mu.Lock()
+					nreverify++
+					if now != kp.dig {
+						diffs = append(diffs, poolDiff{"pool-sharing/retained-result-changed/" + calls[kp.call].kind,
+							"an object returned by an earlier call changed while other goroutines were running (it aliases pooled storage)",
+							map[string]any{"call": calls[kp.call].name, "when-returned": kp.dig, "now": now, "checked": when, "goroutines": goroutines}})
+					}
+					mu.Unlock()
+				}
+			}
+			for it := 0; it < rounds*len(calls); it++ {
+				k := r.Intn(len(calls))
+				var re func() string
+				d := safe(func() string {
+					dd, rr := calls[k].fn()
+					re = rr
+					return dd
+				})
+				mu.Lock()
+				ncalls++
+				if d != solo[k] {
+					key := "pool-sharing/result/" + calls[k].kind
+					if d == "timeout" {
+						key = "deadlock-or-lost-wakeup/pool-sharing/" + calls[k].kind
+					}
+					diffs = append(diffs, poolDiff{key, "a call made while other goroutines use pooled objects of the same dimensions returns something else than when made alone",
+						map[string]any{"call": calls[k].name, "alone": solo[k], "concurrent": d, "goroutines": goroutines}})
+				}
+				mu.Unlock()
+				if re != nil {
+					keep = append(keep, kept{k, d, re})
+					if len(keep) > 8 {
+						keep = keep[len(keep)-8:]
+					}
+				}
+				if it%3 == 2 {
+					verify("while others run")
+				}
+			}
+			verify("at the end of the goroutine")
+		}(g)
+	}
+	go func() { wg.Wait(); close(done) }()
+	select {
+	case <-done:
+	case <-time.After(4 * callDeadline):
+		mu.Lock()
+		diffs = append(diffs, poolDiff{"deadlock-or-lost-wakeup/pool-sharing", "the pool-sharing probe did not finish", map[string]any{"goroutines": goroutines}})
+		mu.Unlock()
+	}
+	mu.Lock()
+	defer mu.Unlock()
+	return append([]poolDiff(nil), diffs...), ncalls, nreverify
+}
+
+// ---------------------------------------------------------------------------
+// (g) slow writers: Encode hands slices to the caller's io.Writer; if such a slice aliases
+// pooled storage that has already been released, another goroutine's encode can
+// overwrite it while the writer is still inside Write.  With a bytes.Buffer that window
+// is a few nanoseconds.  The probe writer makes it observable without being an incorrect
+// writer: Write copies p, yields / sleeps while other goroutines run same-dimension
+// encodes, checks that p still equals the copy (the caller must not modify p during the
+// call), and keeps the copy.
+
+type slowWriter struct {
+	out     []byte
+	changed int // number of Write calls during which p changed
+	seed    uint64
+	n       int
+}
+
+func (w *slowWriter) Write(p []byte) (int, error) {
+	cp := append([]byte(nil), p...)
+	w.n++
+	z := (w.seed + uint64(w.n)) * 0x9E3779B97F4A7C15
+	z ^= z >> 29
+	for k := 0; k < 4; k++ {
+		runtime.Gosched()
+	}
+	time.Sleep(time.Duration(100+z%200) * time.Microsecond)
+	for k := 0; k < 2; k++ {
+		runtime.Gosched()
+	}
+	if !bytes.Equal(cp, p) {
+		w.changed++
+	}
+	w.out = append(w.out, cp...)
+	return len(p), nil
+}
+
+type writerCall struct {
+	name string
+	kind string // Lossless/streaming, Lossless/buffered, Lossy/plain, Lossy/extended
+	img  *image.NRGBA
+	opts webp.EncoderOptions
+}
+
+func buildWriterCalls(rng *Rand) []writerCall {
+	const W, H = 128, 96
+	var calls []writerCall
+	add := func(kind string, sp imgSpec, o webp.EncoderOptions) {
+		calls = append(calls, writerCall{fmt.Sprintf("%s/%s/q%v/m%d", kind, sp, o.Quality, o.Method), kind, genImage(sp), o})
+	}
+	meta := []byte("Exif\x00\x00II*\x00\x08\x00\x00\x00\x00\x00verif-c10")
+	// lossless, simple container: streamed from the pooled encoder (EncodeToWriter)
+	add("Lossless/streaming", imgSpec{W, H, 0, false, rng.U64()}, webp.EncoderOptions{Lossless: true, Quality: 50, Method: 2})
+	add("Lossless/streaming", imgSpec{W, H, 1, false, rng.U64()}, webp.EncoderOptions{Lossless: true, Quality: 75, Method: 4})
+	add("Lossless/streaming", imgSpec{W, H, 2, true, rng.U64()}, webp.EncoderOptions{Lossless: true, Quality: 30, Method: 3})
+	// lossless with metadata: buffered, extended container
+	add("Lossless/buffered", imgSpec{W, H, 1, false, rng.U64()}, webp.EncoderOptions{Lossless: true, Quality: 60, Method: 3, EXIF: meta})
+	add("Lossless/buffered", imgSpec{W, H, 0, true, rng.U64()}, webp.EncoderOptions{Lossless: true, Quality: 40, Method: 2, ICC: meta, XMP: meta})
+	// lossy: simple container, alpha (extended), metadata (extended)
+	add("Lossy/plain", imgSpec{W, H, 0, false, rng.U64()}, webp.EncoderOptions{Quality: 70, Method: 4})
+	add("Lossy/plain", imgSpec{W, H, 1, false, rng.U64()}, webp.EncoderOptions{Quality: 45, Method: 2})
+	add("Lossy/extended", imgSpec{W, H, 2, true, rng.U64()}, webp.EncoderOptions{Quality: 80, Method: 3})
+	add("Lossy/extended", imgSpec{W, H, 1, false, rng.U64()}, webp.EncoderOptions{Quality: 60, Method: 4, EXIF: meta})
+	return calls
+}
+
+// runWriterProbe: every goroutine encodes through its own slowWriter; returns differences.
+func runWriterProbe(calls []writerCall, goroutines, rounds int, rng *Rand) (diffs []poolDiff, ncalls int) {
+	solo := make([]string, len(calls))
+	for k := range calls {
+		k := k
+		solo[k] = safe(func() string {
+			var buf bytes.Buffer
+			o := calls[k].opts
+			if err := webp.Encode(&buf, calls[k].img, &o); err != nil {
+				return "err"
+			}
+			return fmt.Sprintf("%d:%s", buf.Len(), digest(buf.Bytes()))
+		})
+	}
+	var mu sync.Mutex
+	var wg sync.WaitGroup
+	seeds := make([]uint64, goroutines)
+	for g := range seeds {
+		seeds[g] = rng.U64()
+	}
+	fin := make(chan struct{})
+	for g := 0; g < goroutines; g++ {
+		wg.Add(1)
+		go func(g int) {
+			defer wg.Done()
+			r := NewRand(seeds[g])
+			for it := 0; it < rounds*len(calls); it++ {
+				k := r.Intn(len(calls))
+				sw := &slowWriter{seed: r.U64()}
+				d := safe(func() string {
+					o := calls[k].opts
+					if err := webp.Encode(sw, calls[k].img, &o); err != nil {
+						return "err"
+					}
+					return fmt.Sprintf("%d:%s", len(sw.out), digest(sw.out))
+				})
+				mu.Lock()
+				ncalls++
+				if d != "timeout" && sw.changed > 0 {
+					diffs = append(diffs, poolDiff{"pool-sharing/buffer-changed-during-write/" + calls[k].kind,
+						"a slice passed to the caller's io.Writer changed while the writer was inside Write (it aliases storage that another goroutine's encode is using)",
+						map[string]any{"call": calls[k].name, "writes-affected": sw.changed, "goroutines": goroutines}})
+				}
+				if d != solo[k] {
+					key := "pool-sharing/slow-writer-result/" + calls[k].kind
+					if d == "timeout" {
+						key = "deadlock-or-lost-wakeup/slow-writer/" + calls[k].kind
+					}
+					diffs = append(diffs, poolDiff{key, "Encode through a slow io.Writer, concurrently with same-dimension encodes, produced other bytes than the same Encode made alone",
+						map[string]any{"call": calls[k].name, "alone": solo[k], "concurrent": d, "goroutines": goroutines}})
+				}
+				mu.Unlock()
+			}
+		}(g)
+	}
+	go func() { wg.Wait(); close(fin) }()
+	select {
+	case <-fin:
+	case <-time.After(4 * callDeadline):
+		mu.Lock()
+		diffs = append(diffs, poolDiff{"deadlock-or-lost-wakeup/slow-writer", "the slow-writer probe did not finish", map[string]any{"goroutines": goroutines}})
+		mu.Unlock()
+	}
+	mu.Lock()
+	defer mu.Unlock()
+	return append([]poolDiff(nil), diffs...), ncalls
+}
+
+// ---------------------------------------------------------------------------
 
 func jobsFor(rng *Rand, thorough bool) []*encJob {
 	mk := func(w, h, style int, q float32, m int) *encJob {
@@ -1015,6 +1305,46 @@ func run(c *Ctx) {
 		}
 	}
 
+	// ---- (f) pooled objects shared under concurrency (same dimensions everywhere)
+	{
+		pcalls := buildPoolCalls(c.Rng.Fork())
+		prounds := 2
+		if thorough {
+			prounds = 6
+		}
+		for _, g := range []int{6, 12} {
+			diffs, nc, nv := runPoolProbe(pcalls, g, prounds, c.Rng.Fork())
+			c.D.Evaluations += nc + nv
+			c.Count(fmt.Sprintf("pool-probe/goroutines=%d", g))
+			c.Nontrivial(fmt.Sprintf("pool-probe|%d", g))
+			for _, d := range diffs {
+				c.Violate(d.key, d.desc, d.replay)
+			}
+			if g == 12 {
+				c.D.Notes = append(c.D.Notes, fmt.Sprintf("pool-sharing probe: %d same-dimension calls (160x128 lossy/lossless encode + decode), last run %d calls and %d re-verifications of retained results", len(pcalls), nc, nv))
+			}
+		}
+	}
+
+	// ---- (g) slow writers: slices handed to the caller's io.Writer must stay unchanged during Write
+	{
+		wcalls := buildWriterCalls(c.Rng.Fork())
+		wrounds := 3
+		if thorough {
+			wrounds = 10
+		}
+		diffs, nc := runWriterProbe(wcalls, 8, wrounds, c.Rng.Fork())
+		c.D.Evaluations += nc
+		c.Count("slow-writer-probe")
+		for _, wc := range wcalls {
+			c.Nontrivial("slow-writer|" + wc.name)
+		}
+		for _, d := range diffs {
+			c.Violate(d.key, d.desc, d.replay)
+		}
+		c.D.Notes = append(c.D.Notes, fmt.Sprintf("slow-writer probe: %d encodes (lossless streaming / buffered, lossy plain / extended, 128x96) through writers that copy, yield 100-300us and re-compare the slice they were given", nc))
+	}
+
 	// ---- (e) race detector build (thorough tier)
 	if thorough {
 		raceRun(c)
@@ -1095,5 +1425,7 @@ func raceChild() {
 		solo[k] = safe(calls[k].fn)
 	}
 	_, n := runConcurrent(calls, solo, 8, 2, rng.Fork())
-	fmt.Printf("race child: %d perturbed parallel encodes, %d concurrent API calls\n", nEnc, n)
+	_, pc, pv := runPoolProbe(buildPoolCalls(rng.Fork()), 8, 2, rng.Fork())
+	_, wn := runWriterProbe(buildWriterCalls(rng.Fork()), 8, 2, rng.Fork())
+	fmt.Printf("race child: %d perturbed parallel encodes, %d concurrent API calls, pool probe %d calls + %d re-verifications, slow-writer probe %d encodes\n", nEnc, n, pc, pv, wn)
 }
